@@ -381,6 +381,9 @@ class _Idioms(ast.NodeTransformer):
     def visit_Call(self, node):
         node = self.generic_visit(node)
         f = node.func
+        if isinstance(f, ast.Name) and f.id == 'getattr' and len(node.args) == 2 and not node.keywords and isinstance(node.args[1], ast.Constant) \
+                and isinstance(node.args[1].value, str) and node.args[1].value.isidentifier():
+            return _fix(ast.Attribute(value=node.args[0], attr=node.args[1].value, ctx=ast.Load()), node)
         if isinstance(f, ast.Attribute) and f.attr in ('lower', 'upper') and isinstance(f.value, ast.Constant) and isinstance(f.value.value, str) and not node.args and not node.keywords:
             return _fix(ast.Constant(getattr(f.value.value, f.attr)()), node)
         if isinstance(f, ast.Name) and f.id in ('set', 'list') and len(node.args) == 1 and not node.keywords and isinstance(node.args[0], ast.GeneratorExp):
@@ -415,6 +418,19 @@ class _Idioms(ast.NodeTransformer):
             if (k if auto else len({int(p[1]) for p in parts if p[1] is not None})) != len(node.args):
                 return node      # an unused argument would no longer be evaluated
             return _fix(ast.JoinedStr(values=values), node)
+        return node
+
+    def visit_Expr(self, node):
+        node = self.generic_visit(node)
+        c = node.value
+        # print(X, file=F)  ->  F.write(f"{X}\n")      (one positional argument, no sep / end / flush)
+        if isinstance(c, ast.Call) and isinstance(c.func, ast.Name) and c.func.id == 'print' and len(c.args) == 1 and not isinstance(c.args[0], ast.Starred) \
+                and len(c.keywords) == 1 and c.keywords[0].arg == 'file':
+            txt = ast.JoinedStr(values=[ast.FormattedValue(value=c.args[0], conversion=-1, format_spec=None), ast.Constant('\n')])
+            w = ast.Call(func=ast.Attribute(value=c.keywords[0].value, attr='write', ctx=ast.Load()), args=[txt], keywords=[])
+            new = ast.Expr(value=w)
+            _fix(new, node); ast.fix_missing_locations(new)
+            return new
         return node
 
     def visit_Subscript(self, node):
@@ -471,6 +487,45 @@ class _Idioms(ast.NodeTransformer):
                 path.append((cur, 'value', None)); cur = cur.value
             else:
                 return None, None
+
+    @staticmethod
+    def _split_parallel(stmts):
+        """a, b = X, Y  ->  a = X; b = Y   when no right-hand side reads a target (plain names on the left) and the right-hand sides are pure"""
+        out = []
+        for st in stmts:
+            if isinstance(st, ast.Assign) and len(st.targets) == 1 and isinstance(st.targets[0], ast.Tuple) and isinstance(st.value, ast.Tuple) \
+                    and len(st.targets[0].elts) == len(st.value.elts) and all(isinstance(t, ast.Name) for t in st.targets[0].elts) \
+                    and not any(isinstance(v, ast.Starred) for v in st.value.elts):
+                names = {t.id for t in st.targets[0].elts}
+                reads = {n.id for v in st.value.elts for n in ast.walk(v) if isinstance(n, ast.Name)}
+                if not (names & reads) and len(names) == len(st.targets[0].elts) and all(_pure(v) for v in st.value.elts[:-1]):
+                    for t, v in zip(st.targets[0].elts, st.value.elts):
+                        a = ast.Assign(targets=[t], value=v, type_comment=None)
+                        out.append(_fix(a, st))
+                    continue
+            out.append(st)
+        return out
+
+    @staticmethod
+    def _unroll_literal_loops(stmts):
+        """for x in ("a", "b"): BODY  ->  BODY[x:="a"]; BODY[x:="b"]   (a literal tuple / list of at most 4 constants, no break / continue / else,
+        the body does not assign x)"""
+        out = []
+        for st in stmts:
+            if isinstance(st, ast.For) and not st.orelse and isinstance(st.target, ast.Name) and isinstance(st.iter, (ast.Tuple, ast.List)) and 1 <= len(st.iter.elts) <= 4 \
+                    and all(isinstance(x, ast.Constant) for x in st.iter.elts) \
+                    and not any(isinstance(n, (ast.Break, ast.Continue)) for b in st.body for n in ast.walk(b)) \
+                    and not any(isinstance(n, ast.Name) and n.id == st.target.id and isinstance(n.ctx, (ast.Store, ast.Del)) for b in st.body for n in ast.walk(b)) \
+                    and sum(1 for b in st.body for _ in ast.walk(b)) <= 400:
+                # names assigned in the body keep their last value after the loop, as they do after the unrolled copies
+                for c in st.iter.elts:
+                    for b in st.body:
+                        nb = _Subst({st.target.id: c}).visit(copy.deepcopy(b))
+                        ast.fix_missing_locations(nb)
+                        out.append(nb)
+                continue
+            out.append(st)
+        return out
 
     def _accumulate_loops(self, stmts):
         """`x = 0; for b in D: x = (x << 8) | b`  ->  `x = int.from_bytes(D, 'big')`   (D: a bytes parameter of the function; `reversed(D)`: 'little')"""
@@ -538,7 +593,7 @@ class _Idioms(ast.NodeTransformer):
                     st.body = pre + [brk] + st.body
                     ast.fix_missing_locations(st)
             hoisted.append(st)
-        stmts = self._accumulate_loops(hoisted)
+        stmts = self._accumulate_loops(self._unroll_literal_loops(self._split_parallel(hoisted)))
         out = []
         i = 0
         while i < len(stmts):
@@ -917,6 +972,49 @@ def _first_eval_use(stmt, name):
         walk(sl)
     return found[0] if len(found) == 1 else None
 
+def _rebound_locals_pass(fn):
+    """a local bound several times by plain assignments at the top level of the function body (and nowhere else) is one name for several values:
+    each binding gets its own name (t, t__r2, ...) so that the passes that need single bindings apply.  Uses between two bindings see the earlier."""
+    if _contains(fn.body, (ast.Global, ast.Nonlocal)):
+        return 0
+    params = {a.arg for a in fn.args.args + fn.args.kwonlyargs + fn.args.posonlyargs}
+    if fn.args.vararg: params.add(fn.args.vararg.arg)
+    if fn.args.kwarg: params.add(fn.args.kwarg.arg)
+    total = {}
+    for n in ast.walk(fn):
+        if isinstance(n, ast.Name) and isinstance(n.ctx, (ast.Store, ast.Del)):
+            total[n.id] = total.get(n.id, 0) + 1
+    top = {}
+    for st in fn.body:
+        if isinstance(st, ast.Assign) and len(st.targets) == 1 and isinstance(st.targets[0], ast.Name):
+            top[st.targets[0].id] = top.get(st.targets[0].id, 0) + 1
+    captured = set()
+    for n in ast.walk(fn):
+        if n is not fn and isinstance(n, (ast.FunctionDef, ast.AsyncFunctionDef, ast.Lambda)):
+            for x in ast.walk(n):
+                if isinstance(x, ast.Name):
+                    captured.add(x.id)
+    names = [nm for nm, c in top.items() if c >= 2 and total.get(nm) == c and nm not in params and nm not in captured]
+    done = 0
+    for nm in names:
+        version = 0
+        cur = None
+        for st in fn.body:
+            is_def = isinstance(st, ast.Assign) and len(st.targets) == 1 and isinstance(st.targets[0], ast.Name) and st.targets[0].id == nm
+            scope = [st.value] if is_def else [st]
+            if cur is not None and cur != nm:
+                for part in scope:
+                    for n in ast.walk(part):
+                        if isinstance(n, ast.Name) and n.id == nm and isinstance(n.ctx, ast.Load):
+                            n.id = cur
+            if is_def:
+                version += 1
+                cur = nm if version == 1 else f"{nm}__r{version}"
+                st.targets[0].id = cur
+                if version > 1:
+                    done += 1
+    return done
+
 def _single_use_pass(fn):
     """`t = E` immediately followed by a statement that evaluates `t` once, first and unconditionally, `t` bound and used nowhere else:
     E is written where `t` was (same evaluation order, same values)"""
@@ -951,14 +1049,19 @@ def _single_use_pass(fn):
                 tg = st.targets[0] if isinstance(st, ast.Assign) and len(st.targets) == 1 else (st.target if isinstance(st, ast.AnnAssign) else None)
                 if isinstance(tg, ast.Name) and stores.get(tg.id) == 1 and loads.get(tg.id) == 1 and tg.id not in params and tg.id not in captured \
                         and not isinstance(st.value, (ast.Yield, ast.YieldFrom)):
-                    use = _first_eval_use(stmts[i + 1], tg.id)
+                    k = i + 1
+                    # logging statements in between neither change nor observe what a pure expression reads
+                    while _pure(st.value) and k + 1 < len(stmts) and isinstance(stmts[k], ast.Expr) and isinstance(stmts[k].value, ast.Call) and _is_logger_call(stmts[k].value) \
+                            and not any(isinstance(n, ast.Name) and n.id == tg.id for n in ast.walk(stmts[k])):
+                        k += 1
+                    use = _first_eval_use(stmts[k], tg.id)
                     if use is not None:
                         new = st.value
                         # replace in place
                         class R(ast.NodeTransformer):
                             def visit_Name(self, node):
                                 return new if node is use else node
-                        stmts[i + 1] = R().visit(stmts[i + 1])
+                        stmts[k] = R().visit(stmts[k])
                         del stmts[i]
                         count[0] += 1
                         if i > 0:
@@ -1878,6 +1981,10 @@ def normalize_module(name, tree, sibling_consts=None, sibling_funcs=None):
                 report['aliases'] += _alias_pass(m, stable)
     tree = _Idioms().visit(tree)
     report['single_use'] = 0
+    report['rebound'] = 0
+    for n in ast.walk(tree):
+        if isinstance(n, (ast.FunctionDef, ast.AsyncFunctionDef)):
+            report['rebound'] += _rebound_locals_pass(n)
     for n in ast.walk(tree):
         if isinstance(n, (ast.FunctionDef, ast.AsyncFunctionDef)):
             report['single_use'] += _single_use_pass(n)
